@@ -451,7 +451,11 @@ impl IoLoop {
                 ConnectionState::ServerClosing(_)
                 | ConnectionState::ClientException
                 | ConnectionState::ClientClosed => {
-                    unreachable!("ch0 slot cannot be readable after it is dropped")
+                    // The ch0 slot was dropped earlier in this same batch of events
+                    // (e.g., the server's Close was processed first) and this is a
+                    // still-pending wake-up for one of its sources. As for non-0
+                    // channels (see handle_channel_readable), this is not an error; the
+                    // dropped slot propagates an appropriate error to the caller.
                 }
             },
             ALLOC_CHANNEL => match &state {
@@ -461,7 +465,11 @@ impl IoLoop {
                 ConnectionState::ServerClosing(_)
                 | ConnectionState::ClientException
                 | ConnectionState::ClientClosed => {
-                    unreachable!("ch0 slot cannot be readable after it is dropped")
+                    // The ch0 slot was dropped earlier in this same batch of events
+                    // (e.g., the server's Close was processed first) and this is a
+                    // still-pending wake-up for one of its sources. As for non-0
+                    // channels (see handle_channel_readable), this is not an error; the
+                    // dropped slot propagates an appropriate error to the caller.
                 }
             },
             Token(0) => match &state {
@@ -471,7 +479,11 @@ impl IoLoop {
                 ConnectionState::ServerClosing(_)
                 | ConnectionState::ClientException
                 | ConnectionState::ClientClosed => {
-                    unreachable!("ch0 slot cannot be readable after it is dropped")
+                    // The ch0 slot was dropped earlier in this same batch of events
+                    // (e.g., the server's Close was processed first) and this is a
+                    // still-pending wake-up for one of its sources. As for non-0
+                    // channels (see handle_channel_readable), this is not an error; the
+                    // dropped slot propagates an appropriate error to the caller.
                 }
             },
             Token(n) if n <= u16::max_value() as usize => {
